@@ -125,11 +125,9 @@ fn gen_operand_param_parse_methods(grammar: &[structs::OperandKind]) -> Vec<(&st
         !element.enumerants.is_empty()
     }).filter_map(|element| {
         // Get the symbol and all the parameters for each enumerant.
-        let pairs: Vec<(&str, Vec<&str>)> = element.enumerants.iter()
+        let pairs: Vec<(&str, Vec<&structs::Operand>)> = element.enumerants.iter()
             .filter_map(|e| {
-                let params: Vec<&str> = e.parameters.iter().map(
-                    |p| { p.kind.as_str() }
-                ).collect();
+                let params: Vec<&structs::Operand> = e.parameters.iter().collect();
                 if params.is_empty() {
                     // Filter out enumerants without further parameters.
                     None
@@ -161,8 +159,8 @@ fn gen_operand_param_parse_methods(grammar: &[structs::OperandKind]) -> Vec<(&st
             // associated parameters.
             let cases = pairs.into_iter().map(|(symbol, params)| {
                 let params = params.iter().map(|element| {
-                    let op_kind = get_dr_operand_kind(element);
-                    let decode = get_decode_method(element);
+                    let op_kind = get_dr_operand_kind(&element.kind);
+                    let decode = get_decode_method(&element.kind);
                     quote! { dr::Operand::#op_kind(self.decoder.#decode()?) }
                 });
                 let bit = as_ident(&symbol.to_shouty_snake_case());
@@ -181,14 +179,40 @@ fn gen_operand_param_parse_methods(grammar: &[structs::OperandKind]) -> Vec<(&st
             }
         } else {  // ValueEnum
             let cases = pairs.into_iter().map(|(symbol, params)| {
-                let params = params.iter().map(|element| {
-                    let op_kind = get_dr_operand_kind(element);
-                    let decode = get_decode_method(element);
-                    quote! { dr::Operand::#op_kind(self.decoder.#decode()?) }
-                });
                 let symbol = as_ident(symbol);
-                quote! {
-                    spirv::#kind::#symbol => vec![#(#params),*]
+                if params.iter().any(|p| p.quantifier == structs::Quantifier::ZeroOrMore) {
+                    // A parameter that may occur any number of times (e.g. the
+                    // bank bits of Decoration BankBitsINTEL) takes all the
+                    // remaining words of the instruction.
+                    let pushes = params.iter().map(|element| {
+                        let op_kind = get_dr_operand_kind(&element.kind);
+                        let decode = get_decode_method(&element.kind);
+                        if element.quantifier == structs::Quantifier::ZeroOrMore {
+                            quote! {
+                                while !self.decoder.limit_reached() {
+                                    params.push(dr::Operand::#op_kind(self.decoder.#decode()?));
+                                }
+                            }
+                        } else {
+                            quote! { params.push(dr::Operand::#op_kind(self.decoder.#decode()?)); }
+                        }
+                    });
+                    quote! {
+                        spirv::#kind::#symbol => {
+                            let mut params = vec![];
+                            #(#pushes)*
+                            params
+                        }
+                    }
+                } else {
+                    let params = params.iter().map(|element| {
+                        let op_kind = get_dr_operand_kind(&element.kind);
+                        let decode = get_decode_method(&element.kind);
+                        quote! { dr::Operand::#op_kind(self.decoder.#decode()?) }
+                    });
+                    quote! {
+                        spirv::#kind::#symbol => vec![#(#params),*]
+                    }
                 }
             });
             // TODO: filter duplicated symbols mapping to the same discriminator to avoid
